@@ -620,6 +620,7 @@ class Generator:
         self.files = {}
         self.log = []          # rewrite-rule applications etc.
         self.pending_item_subs = []
+        self.pin_failures = []
         self.functions = []    # functions under contract: dict(name,file,line,external,probe)
         self.meta = {'unit': None, 'modes': ['S'], 'props': [], 'tier': 'quick'}
         self.rule_counts = {}
@@ -709,7 +710,9 @@ class Generator:
                 pf = self.file(tok[1])
                 rg = d.split(None, 2)[2]
                 if not re.search(rg, pf.src):
-                    raise Inconclusive('%s:%d: pinned text %r no longer found in %s' % (rel, i + 1, rg, tok[1]))
+                    # deferred: a frame-obligation failure (C15) does not depend on any assumed contract and is still reported;
+                    # everything else in this unit becomes INCONCLUSIVE (run.py)
+                    self.pin_failures.append('%s:%d: pinned text %r no longer found in %s' % (rel, i + 1, rg, tok[1]))
                 self.log.append({'pin': tok[1], 'regex': rg})
             elif cmd == 'itemsub':
                 rg, rp = d[len('itemsub'):].split('=>', 1)
